@@ -25,7 +25,7 @@ class Fn:
                  throws=False, propagate=(), dummy_ret=None, must=None,
                  call_index=(), lambda_marker=None, pnames=None, static_fn=True,
                  byref_return=False, extra_pre="", extra_post="", kind="function",
-                 expr_rx=None, expr_in_header=False, drop=(), subst_post=(), ctor=False, brace_call=None, auto=False):
+                 expr_rx=None, expr_in_header=False, drop=(), subst_post=(), ctor=False, brace_call=None, auto=False, mats=None):
         self.__dict__.update(locals())
         del self.__dict__["self"]
         self.must = dict(must or {})
@@ -84,6 +84,8 @@ def emit_fn(fn):
     if fn.fold:
         body, n = X.r_fold_or(body, *fn.fold); note("R8_fold", n)
 
+    if fn.mats:
+        body, n = X.r_matrix_ops(body, fn.mats); note("R17_matrix_ops", n)
     if fn.brace_call:
         body, n = X.r_brace_call_arg(body, *fn.brace_call); note("R8b_brace_call", n)
     if fn.subst_post:
